@@ -126,6 +126,24 @@ func (cx *Connection) Write(p []byte) (n int, err error) {
 	return
 }
 
+// CloseWrite shuts down the writing side of the connection if the underlying
+// connection can do that (TCP, Unix sockets, TLS, and wrappers forwarding it).
+// Handlers that replace or wrap the underlying connection forward CloseWrite
+// the same way, so that a handler further down the chain (the proxy) can still
+// tell the client that nothing more will be sent.
+func (cx *Connection) CloseWrite() error {
+	return CloseWrite(cx.Conn)
+}
+
+// CloseWrite calls conn's CloseWrite method if it has one, and reports
+// errors.ErrUnsupported otherwise.
+func CloseWrite(conn net.Conn) error {
+	if cw, ok := conn.(interface{ CloseWrite() error }); ok {
+		return cw.CloseWrite()
+	}
+	return errors.ErrUnsupported
+}
+
 // Wrap wraps conn in a new Connection based on cx (reusing
 // cx's existing buffer and context). This is useful after
 // a connection is wrapped by a package that does not support
